@@ -706,7 +706,7 @@ def write_replay(pid, g, r, obs, scratch, tier, repo):
                 rinputs = {}
                 if rr["status"] == "done":
                     for t in rr["obligations"]:
-                        if t["status"] == "FAILURE" and "trace" in t and t["class"] != "canary":
+                        if t["status"] == "FAILURE" and "trace" in t and t["class"] not in ("canary", "unwind"):
                             rinputs, _steps = trace_inputs(t["trace"], rg["entry"])
                             rec["replay_harness_obligation"] = t["name"] + ": " + t["desc"]
                             break
